@@ -2,12 +2,15 @@ package main
 
 import (
 	"fmt"
+	"github.com/jech/galene/rtpconn"
 	"os"
 	"path/filepath"
 	"runtime/debug"
 	"sort"
 	"strings"
 	"time"
+	"verif/fwd"
+	"verif/media"
 
 	"github.com/pion/webrtc/v4"
 
@@ -216,8 +219,28 @@ func parseRecName(n string) (string, int) {
 	return ts, c
 }
 
+// newViewer builds the viewer of Config.Viewer: a real down track at temporal
+// layer 0 that has forwarded one packet and withheld the next, numbered just
+// before the stream's first packet.
+func newViewer(c *Config) *fwd.World {
+	w := fwd.New(fwd.VP8, 0)
+	w.Down.SetLayer(rtpconn.VerifLayer{Tid: 0, WantedTid: 0, MaxTid: 1})
+	for i, tid := range []uint8{0, 1} {
+		p := media.VP8{Hdr: media.Hdr{Seq: c.VSeq0 - 2 + uint16(i), TS: c.VTS0 - 6000 + uint32(i)*3000, Marker: true, PT: 96, SSRC: fwd.UpSSRC},
+			X: true, I: true, M: true, PictureID: uint16(10 + i), T: true, TID: tid, S: true, Keyframe: i == 0, Body: []byte{1, 2, 3}}
+		w.Down.Write(p.Bytes())
+	}
+	w.Rec.Take()
+	return w
+}
+
 func (e *env) run(st *stream, h *History) (o *obs) {
 	c := st.cfg
+	var viewer *fwd.World
+	if c.Viewer {
+		viewer = newViewer(c)
+		defer viewer.Close()
+	}
 	o = &obs{wstep: make([]int, len(st.pk)), cstep: make([]int, len(st.pk)), arrive: make([]time.Duration, len(st.pk))}
 	for i := range o.wstep {
 		o.wstep[i], o.cstep[i] = -1, -1
@@ -294,6 +317,10 @@ func (e *env) run(st *stream, h *History) (o *obs) {
 			o.maxDelay = d
 		}
 		buf := append([]byte(nil), p.Raw...) // the recorder must copy
+		if viewer != nil && t.kind == webrtc.RTPCodecTypeVideo {
+			viewer.Down.Write(buf)
+			viewer.Rec.Take()
+		}
 		t.local.Write(buf)
 		for j := range buf {
 			buf[j] = 0xEE // the caller reuses its buffer
